@@ -26,6 +26,12 @@ Fixpoint lit (s : string) : str :=
   | String a s' => N_of_ascii a :: lit s'
   end.
 
+(* string literals of the model are evaluated to [list N] when a definition
+   is elaborated, so that the extracted code does not depend on Coq's String
+   module (whose extraction would shadow OCaml's) *)
+Notation "'$' s" := (ltac:(let v := eval vm_compute in (lit s%string) in exact v))
+  (at level 0, s at level 0, only parsing).
+
 Fixpoint str_eqb (a b : str) : bool :=
   match a, b with
   | [], [] => true
@@ -60,19 +66,19 @@ Definition is_ws (c : N) : bool :=
 (* ------------------------------------------------------------------ *)
 (* html_escape 0.2.13, escape_safe / escape_double_quote tables *)
 Definition esc_safe_char (c : N) : str :=
-  if c =? c_amp then lit "&amp;"
-  else if c =? c_lt then lit "&lt;"
-  else if c =? c_gt then lit "&gt;"
-  else if c =? c_dq then lit "&quot;"
-  else if c =? c_sq then lit "&#x27;"
-  else if c =? c_sl then lit "&#x2F;"
+  if c =? c_amp then $ "&amp;"
+  else if c =? c_lt then $ "&lt;"
+  else if c =? c_gt then $ "&gt;"
+  else if c =? c_dq then $ "&quot;"
+  else if c =? c_sq then $ "&#x27;"
+  else if c =? c_sl then $ "&#x2F;"
   else [c].
 
 Definition esc_dq_char (c : N) : str :=
-  if c =? c_amp then lit "&amp;"
-  else if c =? c_lt then lit "&lt;"
-  else if c =? c_gt then lit "&gt;"
-  else if c =? c_dq then lit "&quot;"
+  if c =? c_amp then $ "&amp;"
+  else if c =? c_lt then $ "&lt;"
+  else if c =? c_gt then $ "&gt;"
+  else if c =? c_dq then $ "&quot;"
   else [c].
 
 Definition encode_safe (s : str) : str := flat_map esc_safe_char s.
@@ -92,8 +98,8 @@ Fixpoint starts_with (p s : str) : bool :=
   end.
 
 Definition entity_at (s : str) : bool :=
-  starts_with (lit "&amp;") s || starts_with (lit "&lt;") s || starts_with (lit "&gt;") s
-  || starts_with (lit "&quot;") s || starts_with (lit "&#x27;") s || starts_with (lit "&#x2F;") s.
+  starts_with ($ "&amp;") s || starts_with ($ "&lt;") s || starts_with ($ "&gt;") s
+  || starts_with ($ "&quot;") s || starts_with ($ "&#x27;") s || starts_with ($ "&#x2F;") s.
 
 Fixpoint amp_ok (s : str) : bool :=
   match s with
@@ -126,11 +132,11 @@ Fixpoint parse_num (base : N) (acc : N) (s : str) : option N :=
   end.
 
 Definition ent_value (buf : str) : option N :=
-  if str_eqb buf (lit "amp") then Some c_amp
-  else if str_eqb buf (lit "lt") then Some c_lt
-  else if str_eqb buf (lit "gt") then Some c_gt
-  else if str_eqb buf (lit "quot") then Some c_dq
-  else if str_eqb buf (lit "apos") then Some c_sq
+  if str_eqb buf ($ "amp") then Some c_amp
+  else if str_eqb buf ($ "lt") then Some c_lt
+  else if str_eqb buf ($ "gt") then Some c_gt
+  else if str_eqb buf ($ "quot") then Some c_dq
+  else if str_eqb buf ($ "apos") then Some c_sq
   else match buf with
        | 35 :: 120 :: (_ :: _) as h => parse_num 16 0 h
        | 35 :: 88 :: (_ :: _) as h => parse_num 16 0 h
@@ -330,7 +336,7 @@ Record router := MkRouter {
   r_peers : list (N * N * N * N * N)     (* peers that are up: IPv4 address, AS number *)
 }.
 
-Definition bar : str := lit "|".
+Definition bar : str := $ "|".
 Definition sys_name (r : router) : str :=
   match r_tlvs r with Some (n, _, _) => join bar n | None => [] end.
 Definition sys_desc (r : router) : str :=
@@ -340,11 +346,11 @@ Definition sys_extra (r : router) : str :=
 
 Definition addr_segs (a : option (N * N * N * N)) : template :=
   match a with
-  | Some (a, b, c, d) => [Num a; Lit (lit "."); Num b; Lit (lit "."); Num c; Lit (lit "."); Num d]
-  | None => [Lit (lit "0.0.0.0")]
+  | Some (a, b, c, d) => [Num a; Lit ($ "."); Num b; Lit ($ "."); Num c; Lit ($ "."); Num d]
+  | None => [Lit ($ "0.0.0.0")]
   end.
 
-Definition page_head : str := lit
+Definition page_head : str := $
 "<!DOCTYPE html>
 <html lang=""en"">
     <head>
@@ -367,7 +373,7 @@ Definition max_info_tlv_len : nat := 60.
 Definition truncate_tlv (s : str) : str := firstn max_info_tlv_len s.
 
 Definition list_header (n : N) : template :=
-  [Lit page_head; Lit (lit "    <pre>Showing "); Num n; Lit (lit " monitored routers:
+  [Lit page_head; Lit ($ "    <pre>Showing "); Num n; Lit ($ " monitored routers:
     <table>
         <tr>
             <th>Ingress ID</th>
@@ -381,15 +387,15 @@ Definition list_header (n : N) : template :=
 ")].
 
 Definition list_footer : template :=
-  [Lit (lit "      </table>
+  [Lit ($ "      </table>
     </pre>
   </body>
 </html>
 ")].
 
-Definition a_open : str := lit "<td><a href=""".
-Definition a_mid : str := lit """>".
-Definition a_close : str := lit "</a></td>
+Definition a_open : str := $ "<td><a href=""".
+Definition a_mid : str := $ """>".
+Definition a_close : str := $ "</a></td>
 ".
 
 Definition count_soft (r : router) : N := N.of_nat (List.length (filter (fun e => fst e) (r_errs r))).
@@ -400,20 +406,20 @@ Definition count_peers (r : router) : N := N.of_nat (List.length (r_peers r)).
 Definition list_row_gen (kname kdesc : kind) (trunc : str -> str) (path : str) (r : router) : template :=
   match r_tlvs r with
   | Some _ =>
-      [Lit (lit "<tr>
+      [Lit ($ "<tr>
 "); Lit a_open; Fld KDq path; Num (r_id r); Lit a_mid; Num (r_id r); Lit a_close;
        Lit a_open; Fld KDq path] ++ addr_segs (r_addr r) ++ [Lit a_mid] ++ addr_segs (r_addr r) ++ [Lit a_close;
        Lit a_open; Fld KDq path; Fld kname (trunc (sys_name r)); Lit a_mid; Fld kname (trunc (sys_name r)); Lit a_close;
-       Lit (lit "<td>"); Fld kdesc (trunc (sys_desc r)); Lit (lit "</td>
+       Lit ($ "<td>"); Fld kdesc (trunc (sys_desc r)); Lit ($ "</td>
 <td>Dumping</td>
-<td>"); Num (count_peers r); Lit (lit "/0 (0%)/0 (0%)</td>
-<td>0 ("); Num (count_soft r); Lit (lit "/"); Num (count_hard r); Lit (lit ")</td>
+<td>"); Num (count_peers r); Lit ($ "/0 (0%)/0 (0%)</td>
+<td>0 ("); Num (count_soft r); Lit ($ "/"); Num (count_hard r); Lit ($ ")</td>
 </tr>
 ")]
   | None =>
-      [Lit (lit "<tr>
+      [Lit ($ "<tr>
 "); Lit a_open; Fld KDq path; Num (r_id r); Lit a_mid; Num (r_id r); Lit a_close;
-       Lit (lit "<td>-</td>
+       Lit ($ "<td>-</td>
 <td>-</td>
 <td>-</td>
 <td>-</td>
@@ -429,9 +435,9 @@ Definition list_page (path : str) (rs : list router) : template :=
   list_header (N.of_nat (List.length rs)) ++ flat_map (list_row path) rs ++ list_footer.
 
 (* router_info/response.rs *)
-Definition info_head : template := [Lit page_head; Lit (lit "    <pre>
+Definition info_head : template := [Lit page_head; Lit ($ "    <pre>
 ")].
-Definition info_footer : template := [Lit (lit "    </pre>
+Definition info_footer : template := [Lit ($ "    </pre>
   </body>
 </html>
 ")].
@@ -442,9 +448,9 @@ Definition recent_errs (r : router) : list (bool * str) :=
   skipn (List.length (r_errs r) - max_recent_parse_errors) (r_errs r).
 
 Definition err_seg (kmsg : kind) (e : bool * str) : template :=
-  [Lit (lit "  When: T
-  What: "); Fld kmsg (snd e); Lit (lit "
-  Soft: "); Lit (if fst e then lit "true" else lit "false"); Lit (lit "
+  [Lit ($ "  When: T
+  What: "); Fld kmsg (snd e); Lit ($ "
+  Soft: "); Lit (if fst e then $ "true" else $ "false"); Lit ($ "
   PCAP: None
 
 ")].
@@ -452,19 +458,19 @@ Definition err_seg (kmsg : kind) (e : bool * str) : template :=
 (* Display of a PerPeerHeader with the fixed BGP id of the test encoder *)
 Definition peer_key (p : N * N * N * N * N) : template :=
   let '(a, b, c, d, asn) := p in
-  [Num a; Lit (lit "."); Num b; Lit (lit "."); Num c; Lit (lit "."); Num d; Lit (lit "/AS"); Num asn;
-   Lit (lit "/[01, 02, 03, 04]")].
+  [Num a; Lit ($ "."); Num b; Lit ($ "."); Num c; Lit ($ "."); Num d; Lit ($ "/AS"); Num asn;
+   Lit ($ "/[01, 02, 03, 04]")].
 
 (* [focus]: the peer key of a /flags/<key> request, compared with Display of the peer *)
 Definition peer_row (kbase : kind) (base : str) (focus : option str) (p : N * N * N * N * N) : template :=
-  [Lit (lit "<tr><td>T</td><td>A</td><td>AS</td><td></td><td>00000000 [<a href="""); Fld kbase base;
-   Lit (lit "/flags/")] ++ peer_key p ++ [Lit (lit """>more</a>]</td></tr>
+  [Lit ($ "<tr><td>T</td><td>A</td><td>AS</td><td></td><td>00000000 [<a href="""); Fld kbase base;
+   Lit ($ "/flags/")] ++ peer_key p ++ [Lit ($ """>more</a>]</td></tr>
 ")] ++
   match focus with
   | Some k =>
       if str_eqb k (render (peer_key p)) then
-        [Lit (lit "<tr><td colspan=6><pre>
-    Peer Details: [<a href="""); Fld kbase base; Lit (lit """>close</a>]
+        [Lit ($ "<tr><td colspan=6><pre>
+    Peer Details: [<a href="""); Fld kbase base; Lit ($ """>close</a>]
         details
 </pre></td></tr>
 ")]
@@ -475,7 +481,7 @@ Definition peer_row (kbase : kind) (base : str) (focus : option str) (p : N * N 
 Definition peers_table (kbase : kind) (base : str) (focus : option str) (r : router) : template :=
   match r_tlvs r with
   | Some _ =>
-      [Lit (lit "<table>
+      [Lit ($ "<table>
 <tr>
     <th>Timestamp</th>
     <th>IP Address</th>
@@ -483,7 +489,7 @@ Definition peers_table (kbase : kind) (base : str) (focus : option str) (r : rou
     <th>Prefixes</th>
     <th>Flags</th>
 </tr>
-")] ++ flat_map (peer_row kbase base focus) (r_peers r) ++ [Lit (lit "</table>
+")] ++ flat_map (peer_row kbase base focus) (r_peers r) ++ [Lit ($ "</table>
 ")]
   | None => []
   end.
@@ -492,36 +498,37 @@ Definition peers_table (kbase : kind) (base : str) (focus : option str) (r : rou
    interpolated; [kbase]: how the request-derived base path is. *)
 Definition info_page_gen (kf kbase : kind) (base : str) (focus : option str) (r : router) : template :=
   info_head ++
-  [Lit (lit "Router:
-    Ingress      : "); Num (r_id r); Lit (lit "
+  [Lit ($ "Router:
+    Ingress      : "); Num (r_id r); Lit ($ "
     State:       : S [Initiating -> Dumping -> Updating -> Terminated, or Aborted]
-    SysName      : "); Fld kf (sys_name r); Lit (lit "
-    SysDesc      : "); Fld kf (sys_desc r); Lit (lit "
-    Extra        : "); Fld kf (sys_extra r); Lit (lit "
+    SysName      : "); Fld kf (sys_name r); Lit ($ "
+    SysDesc      : "); Fld kf (sys_desc r); Lit ($ "
+    Extra        : "); Fld kf (sys_extra r); Lit ($ "
 Timers:
     Connected at : T
     Last message : T
 Counters:
     Problem Msgs : 0 issues (e.g. RFC violation, parsing retried/failed, etc)
     BGP UPDATEs:
-        Soft Fail: "); Num (count_soft r); Lit (lit "
-        Hard Fail: "); Num (count_hard r); Lit (lit "
+        Soft Fail: "); Num (count_soft r); Lit ($ "
+        Hard Fail: "); Num (count_hard r); Lit ($ "
     Announce     : 0
     Withdraw     : 0
-    Peers Up     : "); Num (count_peers r); Lit (lit "
+    Peers Up     : "); Num (count_peers r); Lit ($ "
     EoR Capable  : 0
     Dumping      : 0
 
 Parse Errors: (most recent only)
 ")] ++ flat_map (err_seg kf) (recent_errs r) ++
-  [Lit (lit "
+  [Lit ($ "
 
 Peers:
-")] ++ peers_table kbase base focus r ++ [Lit (lit "
+")] ++ peers_table kbase base focus r ++ [Lit ($ "
 ")] ++ info_footer.
 
-(* the code on the current tree (after the C19 repair): everything escaped *)
-Definition info_page := info_page_gen KSafe KSafe.
+(* the code on the current tree (after the C19 repair): the strings with
+   encode_safe, the base path with encode_double_quoted_attribute *)
+Definition info_page := info_page_gen KSafe KDq.
 (* the code as found (e224a89): raw interpolation *)
 Definition info_page_legacy := info_page_gen KRaw KRaw.
 
@@ -555,9 +562,9 @@ Fixpoint replace_go (pat rep : str) (skip : nat) (s : str) : str :=
 Definition replace_all (pat rep s : str) : str := replace_go pat rep 0 s.
 
 Definition format_source_id (tpl : str) (sysname : str) (id : N) : str :=
-  replace_all (lit "{router_port}") (lit "PORT")
-    (replace_all (lit "{router_ip}") (lit "IP")
-       (replace_all (lit "{sys_name}") (dec id) tpl)).
+  replace_all ($ "{router_port}") ($ "PORT")
+    (replace_all ($ "{router_ip}") ($ "IP")
+       (replace_all ($ "{sys_name}") (dec id) tpl)).
 
 Definition addr_str (r : router) : str :=
   match r_addr r with Some _ => render (addr_segs (r_addr r)) | None => [] end.
@@ -572,10 +579,10 @@ Definition info_route (api tpl req : str) (r : router) : option (str * option st
     | [] => None
     | _ =>
         let '(router, focus) :=
-          match split_once (lit "/prefixes/") rest with
+          match split_once ($ "/prefixes/") rest with
           | Some (a, b) => (a, Some b)
           | None =>
-              match split_once (lit "/flags/") rest with
+              match split_once ($ "/flags/") rest with
               | Some (a, b) => (a, Some b)
               | None => (rest, None)
               end
@@ -591,7 +598,7 @@ Definition info_request_gen (kf kbase : kind) (api tpl req : str) (r : router) :
   | Some (base, focus) => Some (info_page_gen kf kbase base focus r)
   | None => None
   end.
-Definition info_request := info_request_gen KSafe KSafe.
+Definition info_request := info_request_gen KSafe KDq.
 Definition info_request_legacy := info_request_gen KRaw KRaw.
 
 (* ---- the list page as found (e224a89): escape first, then slice the
@@ -657,11 +664,11 @@ Fixpoint contains (pat s : str) : bool :=
 (* ------------------------------------------------------------------ *)
 (* Prometheus exposition: metrics.rs Records::suffixed_label_value writes
    name="value" pairs with NO escaping of the value. *)
-Definition prom_label (nv : str * str) : str := fst nv ++ lit "=""" ++ snd nv ++ lit """".
+Definition prom_label (nv : str * str) : str := fst nv ++ $ "=""" ++ snd nv ++ $ """".
 Definition prom_labels (ls : list (str * str)) : str :=
-  lit "{" ++ join (lit ",") (map prom_label ls) ++ lit "}".
+  $ "{" ++ join ($ ",") (map prom_label ls) ++ $ "}".
 Definition prom_sample (name : str) (ls : list (str * str)) (value : str) : str :=
-  name ++ prom_labels ls ++ lit " " ++ value ++ [c_nl].
+  name ++ prom_labels ls ++ $ " " ++ value ++ [c_nl].
 
 (* the reader of the exposition format: label set parser with the escapes
    the format defines: backslash-backslash, backslash-quote, backslash-n *)
@@ -721,9 +728,9 @@ Definition info_alike (r1 r2 : router) : Prop :=
   is_some (r_tlvs r1) = is_some (r_tlvs r2) /\ map fst (r_errs r1) = map fst (r_errs r2) /\
   r_peers r1 = r_peers r2.
 
-Definition mk_named (n : str) : router := MkRouter 1 None (Some ([n], [lit "d"], [])) [] [].
+Definition mk_named (n : str) : router := MkRouter 1 None (Some ([n], [$ "d"], [])) [] [].
 
 Definition mk_peered (n : str) : router :=
-  MkRouter 1 None (Some ([n], [lit "d"], [])) [] [(10, 0, 0, 1, 65000)].
+  MkRouter 1 None (Some ([n], [$ "d"], [])) [] [(10, 0, 0, 1, 65000)].
 
 Definition label_ok (nv : str * str) : bool := prom_name_ok (fst nv) && prom_value_ok (snd nv).
